@@ -38,6 +38,7 @@ pub fn ground(which: &str) -> Option<vk::std::string::String> {
     use vk::std::vec::Vec;
     if which == "tables_wf" { return Some(tables_wf()); }
     if which == "tables_modes" { return Some(tables_modes()); }
+    if which == "tables_crosstype" { return Some(tables_crosstype()); }
     if which != "lookups" { return None; }
     // all element types reachable from ROOT through the public listing
     let mut seen: HashSet<ElementType> = HashSet::new();
@@ -232,4 +233,51 @@ fn tables_modes() -> vk::std::string::String {
         return format!("FAIL ElementType::ROOT = ({}, {}) lies outside ELEMENTS / DATATYPES", ElementType::ROOT.def, ElementType::ROOT.typ);
     }
     format!("OK {} instances", inst)
+}
+
+
+/// The table fact `axiom_crosstype` of the Verus unit `compatwalk`: if a parent type lists a sub-element name several times (with
+/// different element types for different versions), then an index list found by find_sub_element in one of these types -- for a
+/// declared version or for u32::MAX -- resolves to an element entry in each of the other types as well.
+/// (Element::check_version_compatibility looks a child up in the type of the target version but reads the version mask through the
+/// element's own type and unwraps the result.)
+#[cfg(not(kani))]
+fn tables_crosstype() -> vk::std::string::String {
+    use vk::std::collections::HashSet;
+    use vk::std::format;
+    use vk::std::vec::Vec;
+    let mut seen: HashSet<ElementType> = HashSet::new();
+    let mut work: Vec<ElementType> = Vec::new();
+    seen.insert(ElementType::ROOT);
+    work.push(ElementType::ROOT);
+    let mut all: Vec<ElementType> = Vec::new();
+    while let Some(t) = work.pop() {
+        all.push(t);
+        for (_, st, _, _) in t.sub_element_spec_iter() { if seen.insert(st) { work.push(st); } }
+    }
+    let mut masks: Vec<u32> = crate::expand_version_mask(u32::MAX).iter().map(|v| *v as u32).collect();
+    masks.push(u32::MAX);
+    let (mut inst, mut pairs) = (0u64, 0u64);
+    for p in &all {
+        let listing: Vec<(ElementName, ElementType, u32, u32)> = p.sub_element_spec_iter().collect();
+        for (n1, t_own, _, _) in &listing {
+            for (n2, t_new, _, _) in &listing {
+                if n1 != n2 || t_own == t_new { continue; }
+                pairs += 1;
+                let children: Vec<ElementName> = t_new.sub_element_spec_iter().map(|x| x.0).collect();
+                for child in &children {
+                    for v in &masks {
+                        if let Some((_, idx)) = t_new.find_sub_element(*child, *v) {
+                            inst += 1;
+                            match t_own.get_sub_element_spec(&idx) {
+                                Some((SubElement::Element(_), _)) => {}
+                                _ => return format!("FAIL under {:?}, {:?} is listed with types {:?} and {:?}; {:?}.find_sub_element({:?}, {:#x}) = {:?} does not resolve to an element entry in {:?}", p, n1, t_own, t_new, t_new, child, v, idx, t_own),
+                            }
+                        }
+                    }
+                }
+            }
+        }
+    }
+    format!("OK {} instances type-pairs={}", inst, pairs)
 }
